@@ -33,10 +33,12 @@ type C20Stim struct {
 type C20Line struct {
 	Handlers   string    `json:"handlers"` // read | write | both
 	Stims      []C20Stim `json:"stims"`
-	InactiveMs int       `json:"inactive_ms"` // 0 = stays active until the end
-	PanicOn    int       `json:"panic_on"`    // the event handler panics on the k-th idle event (0 = never)
-	CloseOn    int       `json:"close_on"`    // the event handler closes the channel from inside the k-th idle event (0 = never)
-	ExcPanics  bool      `json:"exc_panics"`  // with PanicOn: the exception handler itself panics the first time it is called
+	InactiveMs int       `json:"inactive_ms"`          // 0 = stays active until the end
+	PanicOn    int       `json:"panic_on"`             // the event handler panics on the k-th idle event (0 = never)
+	CloseOn    int       `json:"close_on"`             // the event handler closes the channel from inside the k-th idle event (0 = never)
+	LingerMs   int       `json:"linger_ms,omitempty"`  // a downstream inactive handler takes this long (reconnect back-off, cleanup)
+	LateWrite  bool      `json:"late_write,omitempty"` // after inactive, a handler that still holds a context writes once more
+	ExcPanics  bool      `json:"exc_panics"`           // with PanicOn: the exception handler itself panics the first time it is called
 	EndMs      int       `json:"end_ms"`
 }
 
@@ -79,6 +81,16 @@ func genC20Line(t *rapid.T) C20Line {
 			l.InactiveMs = 0
 		}
 	}
+	if l.InactiveMs > 0 {
+		if rapid.IntRange(0, 3).Draw(t, "linger") == 1 {
+			l.LingerMs = rapid.SampledFrom([]int{1300, 2200}).Draw(t, "lingerms")
+			l.EndMs = imax(l.EndMs, l.InactiveMs+l.LingerMs+400)
+		}
+		if rapid.IntRange(0, 3).Draw(t, "latewrite") == 2 {
+			l.LateWrite = true
+			l.EndMs = imax(l.EndMs, l.InactiveMs+l.LingerMs+1700)
+		}
+	}
 	switch rapid.IntRange(0, 7).Draw(t, "special") {
 	case 0:
 		l.PanicOn = rapid.IntRange(1, 2).Draw(t, "panicon")
@@ -104,12 +116,13 @@ type c20Stamp struct {
 }
 
 type c20Obs struct {
-	mu         sync.Mutex
-	stamps     []c20Stamp
-	events     []c20Stamp // idle events: kind + time (start==end)
-	exceptions []error
-	inactiveAt time.Duration // return of the Close that delivered inactive (0 = none)
-	closeBegin time.Duration
+	mu             sync.Mutex
+	stamps         []c20Stamp
+	events         []c20Stamp // idle events: kind + time (start==end)
+	exceptions     []error
+	inactiveAt     time.Duration // return of the Close that delivered inactive (0 = none)
+	inactivePassed time.Duration // the inactive event reached the handler after the idle handlers (0 = not yet)
+	closeBegin     time.Duration
 }
 
 func runC20Line(l C20Line) (*c20Obs, *core.Violation) {
@@ -159,6 +172,16 @@ func runC20Line(l C20Line) (*c20Obs, *core.Violation) {
 		if l.PanicOn == k {
 			panic(fmt.Sprintf("verif: idle event handler panic #%d", k))
 		}
+	}), netty.InactiveHandlerFunc(func(ctx netty.InactiveContext, ex netty.Exception) {
+		obs.mu.Lock()
+		if obs.inactivePassed == 0 {
+			obs.inactivePassed = now()
+		}
+		obs.mu.Unlock()
+		if l.LingerMs > 0 {
+			time.Sleep(time.Duration(l.LingerMs) * time.Millisecond)
+		}
+		ctx.HandleInactive(ex)
 	}), netty.InboundHandlerFunc(func(ctx netty.InboundContext, m netty.Message) {
 		if rd, ok := m.(interface{ Read([]byte) (int, error) }); ok {
 			buf := make([]byte, 64)
@@ -219,6 +242,13 @@ func runC20Line(l C20Line) (*c20Obs, *core.Violation) {
 			obs.mu.Unlock()
 		}
 	}
+	if l.LateWrite && l.InactiveMs > 0 {
+		// e.g. a heartbeat goroutine that lost the race with Close: it writes through the pipeline once more
+		func() {
+			defer func() { _ = recover() }()
+			pl.FireChannelWrite([]byte("late"))
+		}()
+	}
 	if d := time.Duration(l.EndMs)*time.Millisecond - now(); d > 0 {
 		time.Sleep(d)
 	}
@@ -234,6 +264,9 @@ func judgeC20(l C20Line, obs *c20Obs, end time.Duration) *core.Violation {
 	defer obs.mu.Unlock()
 	hasKind := func(k string) bool { return l.Handlers == k || l.Handlers == "both" }
 	inactive := obs.inactiveAt
+	if obs.inactivePassed != 0 {
+		inactive = obs.inactivePassed // the moment the event had passed the idle handlers
+	}
 	for _, ev := range obs.events {
 		// no early event
 		for _, s := range obs.stamps {
@@ -358,6 +391,12 @@ func runC20(c C20Case) (out core.Outcome) {
 		if l.CloseOn > 0 && len(r.obs.events) >= l.CloseOn {
 			cls.Add("closed-from-event-handler")
 			nontrivial = true
+		}
+		if l.LingerMs > 0 {
+			cls.Add("slow-downstream-inactive")
+		}
+		if l.LateWrite {
+			cls.Add("write-after-inactive")
 		}
 		if l.InactiveMs > 0 {
 			cls.Add("inactive")
